@@ -258,20 +258,6 @@ of the interpreter are then the accumulator-free references `listRefM` / `dictRe
 of `Glom/Spec/C03.lean`, which run `g` exactly once per item / entry / step, in order, threading
 the state, and stop at the first exception with the state reached so far. -/
 
-/-- on sub-spec `s` the evaluator computes the effectful function `g`, at every scope with mode `m`
-    and argument flag `a` -/
-def EvalOn (rec : Rec σ) (m : Mode) (a : Bool) (s : Spec) (g : V → M V) : Prop :=
-  ∀ t (sc : σ), mode sc = m → argMode sc = a → (rec s t sc >>= fun r => pure r.1) = g t
-
-theorem evalOn_apply {rec : Rec σ} {m : Mode} {a : Bool} {s : Spec} {g : V → M V} (h : EvalOn rec m a s g)
-    (t : V) (sc : σ) (hm : mode sc = m) (ha : argMode sc = a) (st : St) :
-    g t st = (match rec s t sc st with
-      | (st', .ok r) => (st', .ok r.1)
-      | (st', .error e) => (st', .error e)) := by
-  rw [← h t sc hm ha, M.bind_apply]
-  rcases rec s t sc st with ⟨st', r⟩
-  cases r <;> rfl
-
 /-- a pure evaluator is a special case (in every mode) -/
 theorem c03_pureOn_evalOn (rec : Rec σ) (s : Spec) (f : V → V) (h : PureOn rec s f) (m : Mode) (a : Bool) :
     EvalOn rec m a s (fun t => pure (f t)) := by
